@@ -208,7 +208,9 @@ def header_texts(toks, a, b):
     return out
 
 
-def find_in(src, lo, hi, pattern):
+def find_in(src, lo, hi, pattern, must_contain=()):
+    """`must_contain`: headers of members (e.g. `fn next`) that the wanted container must hold --
+    used only to choose among several containers with the same header (two `impl X` blocks)"""
     want = [t.text for t in significant(tokenize(pattern))]
     if want[:1] == ["pub"]:
         want = want[1:]
@@ -224,6 +226,20 @@ def find_in(src, lo, hi, pattern):
             hits.append((a, b))
     if not hits:
         raise ExtractError("lost anchor: item `%s` not found in %s" % (pattern, src.rel))
+    if len(hits) > 1 and must_contain:
+        keep = []
+        for (a, b) in hits:
+            bb = body_braces(src, a, b)
+            if bb is None:
+                continue
+            try:
+                for m in must_contain:
+                    find_in(src, bb[0] + 1, bb[1], m)
+                keep.append((a, b))
+            except ExtractError:
+                pass
+        if keep:
+            hits = keep
     if len(hits) > 1:
         raise ExtractError("ambiguous anchor: item `%s` matches %d items in %s" % (pattern, len(hits), src.rel))
     return hits[0]
@@ -250,13 +266,13 @@ def body_braces(src, a, b):
     return None
 
 
-def locate(src, path):
+def locate(src, path, must_contain=()):
     """path: `A / B / C` -- descend through containers"""
     comps = [c.strip() for c in path.split(" / ")]
     lo, hi = 0, len(src.toks)
     a = b = None
     for n, comp in enumerate(comps):
-        a, b = find_in(src, lo, hi, comp)
+        a, b = find_in(src, lo, hi, comp, must_contain if n + 1 == len(comps) else ())
         if n + 1 < len(comps):
             bb = body_braces(src, a, b)
             if bb is None:
@@ -1611,7 +1627,7 @@ class Unit:
                 blk, children = node[1], node[2]
                 rel, path = split_arg(blk.arg)
                 src = self.source(rel)
-                a, b = locate(src, path)
+                a, b = locate(src, path, tuple(ch[1].arg for ch in children if ch[0] in ("fn", "item")))
                 bb = body_braces(src, a, b)
                 if bb is None:
                     raise ExtractError("container `%s` has no body" % path)
